@@ -204,6 +204,46 @@ def replay_all(ctx, cases, ext=".c", want_trace=0, label="G"):
     return traces, dirs
 
 
+def cli_cov(ctx, cases, n):
+    """a sample of (program, configuration) pairs through `cbi-cov compute`"""
+    import json
+    from . import C06
+    rnd = random.Random(ctx.seed)
+    pick = rnd.sample(cases, min(n, len(cases)))
+    work = tempfile.mkdtemp(prefix="c01cli-", dir=ctx.scratch())
+    try:
+        for ci, case in enumerate(pick):
+            oks = [e for e in case["exp"] if e[2]]
+            if not oks:
+                continue
+            a, b, ok, bits = rnd.choice(oks)
+            d = os.path.join(work, f"p{ci}")
+            os.makedirs(d)
+            text, lines_of = render.render_c(case["prog"], seed=rnd.random())
+            open(os.path.join(d, "m.c"), "w").write(text)
+            defs = _defines(a, b, rnd)
+            json.dump([{"directory": d, "file": "m.c", "arguments": ["gcc"] + ["-D" + x for x in defs] + ["-c", "m.c"]}],
+                      open(os.path.join(d, "cc.json"), "w"))
+            rc, out, err = C06.cli("codebasin.coverage", ["compute", "-S", d, "-o", os.path.join(d, "cov.json"),
+                                                          os.path.join(d, "cc.json")], d)
+            ctx.cov["evaluations"] += 1
+            want = expected_lines(lines_of, bits)
+            allc = set()
+            for ls in lines_of:
+                allc.update(ls)
+            if rc != 0:
+                ctx.fail("G", ["cli"], "cbi-cov-failed", f"defines={defs}: {out[-200:]}{err[-200:]}\n{text}")
+                continue
+            cov = {e["file"]: e for e in json.load(open(os.path.join(d, "cov.json")))}
+            e = cov.get("m.c")
+            if e is None or set(e["used_lines"]) != want or set(e["unused_lines"]) != allc - want:
+                ctx.fail("G", ["cli"], "cbi-cov-lines-differ",
+                         f"defines={defs}: cbi-cov used={e and e['used_lines']} expected {sorted(want)}\n{text}",
+                         dict(prog=case["prog"], text=text, defines=defs))
+    finally:
+        shutil.rmtree(work, ignore_errors=True)
+
+
 def suite_traces(ctx, dirs):
     """
     Run the repository's test suite (a scratch copy of the working tree, hooks on) and return its
@@ -280,6 +320,8 @@ def run(ctx):
     traces3, dirs3 = replay_all(ctx, simc, want_trace=(10 if q else 5))
     traces += traces3
     dirs += dirs3
+    # ---- the same expectation through the cbi-cov front end (used_lines / unused_lines) ------------
+    cli_cov(ctx, cases, 12 if q else 80)
     # ---- V on the repository's own test suite: its executions, judged by the specification -----
     traces += suite_traces(ctx, dirs)
     # ---- V: trace validation ---------------------------------------------------------------
